@@ -544,7 +544,7 @@ func (s *session) handleLogon(msg *Message) error {
 	}
 
 	if resetStore {
-		if err := s.store.Reset(); err != nil {
+		if err := s.dropAndReset(); err != nil {
 			return err
 		}
 	}
